@@ -58,9 +58,8 @@ pub mod capture {
     /// (item name, cranelift IR text) in the order of definition
     pub static CLIF: Mutex<Vec<(String, String)>> = Mutex::new(Vec::new());
 
-    /// (item name, data id as printed in the IR, bytes)
-    pub static DATA: Mutex<Vec<(String, String, Vec<u8>)>> =
-        Mutex::new(Vec::new());
+    /// (data id, bytes)
+    pub static DATA: Mutex<Vec<(u32, Vec<u8>)>> = Mutex::new(Vec::new());
 
     /// (address, kind, description)
     pub static SYMBOLS: Mutex<Vec<(usize, &'static str, String)>> =
@@ -70,8 +69,8 @@ pub mod capture {
         CLIF.lock().unwrap().push((name.to_string(), text));
     }
 
-    pub fn data(func: &str, id: String, bytes: &[u8]) {
-        DATA.lock().unwrap().push((func.to_string(), id, bytes.to_vec()));
+    pub fn data(id: u32, bytes: &[u8]) {
+        DATA.lock().unwrap().push((id, bytes.to_vec()));
     }
 
     pub fn symbol(addr: usize, kind: &'static str, desc: String) {
